@@ -3,7 +3,7 @@
 use crate::disk::*;
 use crate::monitor::Monitor;
 use revm::db::states::bundle_state::BundleRetention;
-use revm::db::{CacheDB, State, WrapDatabaseRef};
+use revm::db::{CacheDB, EmptyDBTyped, State, WrapDatabaseRef};
 use revm::inspectors::{GasInspector, NoOpInspector, TracerEip3155};
 use revm::interpreter::{
     CallInputs, CallOutcome, CreateInputs, CreateOutcome, EOFCreateInputs, Interpreter,
@@ -31,6 +31,17 @@ pub enum StackKind {
     StateOverCache,
     BoxedState,
     MutRefCache,
+    /// `CacheDB<EmptyDB>` (the crate's `InMemoryDB`): the world is loaded through
+    /// `insert_account_info` / `insert_account_storage`; no bottom database to fault
+    CacheEmpty,
+    /// `State<EmptyDB>` with the world loaded through `insert_account_with_storage`
+    StateEmpty,
+}
+
+impl StackKind {
+    pub fn in_memory(&self) -> bool {
+        matches!(self, StackKind::CacheEmpty | StackKind::StateEmpty)
+    }
 }
 
 pub const ALL_STACKS: &[StackKind] = &[
@@ -44,6 +55,8 @@ pub const ALL_STACKS: &[StackKind] = &[
     StackKind::StateOverCache,
     StackKind::BoxedState,
     StackKind::MutRefCache,
+    StackKind::CacheEmpty,
+    StackKind::StateEmpty,
 ];
 
 pub enum AnyDb {
@@ -55,6 +68,8 @@ pub enum AnyDb {
     CacheCache(CacheDB<CacheDB<FaultyDb>>),
     StateOverCache(State<CacheDB<FaultyDb>>),
     BoxedState(Box<State<Box<FaultyDb>>>),
+    CacheEmpty(CacheDB<EmptyDBTyped<DbErr>>),
+    StateEmpty(State<EmptyDBTyped<DbErr>>),
 }
 
 macro_rules! each_db {
@@ -68,6 +83,8 @@ macro_rules! each_db {
             AnyDb::CacheCache($d) => $e,
             AnyDb::StateOverCache($d) => $e,
             AnyDb::BoxedState($d) => $e,
+            AnyDb::CacheEmpty($d) => $e,
+            AnyDb::StateEmpty($d) => $e,
         }
     };
 }
@@ -106,6 +123,30 @@ impl AnyDb {
                 }
                 AnyDb::BoxedState(Box::new(b.build()))
             }
+            StackKind::CacheEmpty => {
+                let mut c = CacheDB::new(EmptyDBTyped::<DbErr>::new());
+                for (a, d) in &bottom.disk().accounts {
+                    let code = if d.code.is_empty() { None } else { Some(to_bytecode(&d.code)) };
+                    c.insert_account_info(*a, AccountInfo { balance: d.balance, nonce: d.nonce, code_hash: d.code_hash(), code });
+                    for (k, v) in &d.storage {
+                        c.insert_account_storage(*a, *k, *v).expect("EmptyDB does not fail");
+                    }
+                }
+                AnyDb::CacheEmpty(c)
+            }
+            StackKind::StateEmpty => {
+                let mut b = State::builder().with_database(EmptyDBTyped::<DbErr>::new()).with_bundle_update();
+                if !state_clear {
+                    b = b.without_state_clear();
+                }
+                let mut st = b.build();
+                for (a, d) in &bottom.disk().accounts {
+                    let code = if d.code.is_empty() { None } else { Some(to_bytecode(&d.code)) };
+                    let info = AccountInfo { balance: d.balance, nonce: d.nonce, code_hash: d.code_hash(), code };
+                    st.insert_account_with_storage(*a, info, d.storage.iter().map(|(k, v)| (*k, *v)).collect());
+                }
+                AnyDb::StateEmpty(st)
+            }
         }
     }
     /// merge pending transitions (State stacks), as a block boundary would
@@ -114,6 +155,7 @@ impl AnyDb {
             AnyDb::State(s) => s.merge_transitions(retention),
             AnyDb::StateOverCache(s) => s.merge_transitions(retention),
             AnyDb::BoxedState(s) => s.merge_transitions(retention),
+            AnyDb::StateEmpty(s) => s.merge_transitions(retention),
             _ => {}
         }
     }
